@@ -4,7 +4,10 @@
 //!   mrlmc replay <replay.json>
 #![allow(dead_code)]
 mod crash;
+mod damage;
 mod exec;
+mod fault;
+mod frame;
 mod model;
 mod ops;
 mod props;
@@ -13,6 +16,9 @@ mod seeds;
 mod seq;
 
 use std::path::PathBuf;
+
+#[global_allocator]
+static GLOBAL: damage::CountingAlloc = damage::CountingAlloc;
 
 pub fn geometry_name() -> &'static str {
     if ops::TINY {
